@@ -69,7 +69,9 @@ def run_cell(cell, seed):
         x = util.impulses(sp) if kind == 'impulse' else util.make_input(kind, [cell['N'], cell['C']] + sp, seed)
         xn = util.np64(x)
         tol = 1e-11 * G * max(float(np.abs(xn).max()), 1e-300)
-        ok, y = util.call_lib(mod, x) if kind != 'randn' else util.call_lib_nograd(mod, x)   # one class under no_grad
+        # one input class inside torch.no_grad(), one with the module in eval() mode
+        ok, y = util.call_lib_nograd(mod, x) if kind == 'randn' else util.call_lib(mod, x) if kind == 'impulse' else \
+            util.call_lib_eval(mod, x)
         if not ok:
             out.append(res(VIOLATED, case, 'M-REF', 'library raised %r' % (y,)))
             continue
